@@ -279,6 +279,8 @@ class Interp:
             mod = getattr(f, "__module__", "") or ""
             if mod.split(".")[0] in _STDLIB_OK and not has_sym(list(args)) and not has_sym(kwargs):
                 return self.call_native(f, args, kwargs)
+            if mod == "pyvc.xmlmodel" and f.__qualname__ in ("NumText.split",):  # text model of repr(float)
+                return self.call_native(f, args, kwargs)
             if mod == "pyvc.tokstr":  # methods of the token-string model
                 return self.call_native(f, args, kwargs)
             raise Unsupported("call of python function %s.%s without model" % (mod, f.__qualname__))
@@ -718,6 +720,8 @@ class Interp:
                 return xmlmodel.elem_attr(self, obj, name)
             if type(obj).__name__ == "XTree":
                 return xmlmodel.tree_attr(self, obj, name)
+            if type(obj).__name__ == "NumText" and name in ("split", "partition"):
+                return ModelFn(lambda it, a, k: getattr(obj, name)(*a, **k), "NumText." + name)
             raise Unsupported("attribute %s of %s" % (name, type(obj).__name__))
         if type(obj) is Sym:
             from . import libmodels
@@ -1882,6 +1886,11 @@ class Interp:
             if f is not None:
                 return self.truth(self.call(self.bind(f[0], container, f[1]), [item], {}))
             raise Unsupported("'in' on %s without __contains__" % container.cls.__name__)
+        if type(container).__name__ == "NumText":
+            if container.cls == "pyrepr" and item == "e" and type(container.value) is Sym:
+                self.ctx.used_models.add("text of str(float): exponent form <=> f != 0 and (|f| < 1e-4 or |f| >= 1e16); otherwise <digits>.<digits> denoting f (bounded check on real floats)")
+                return mk(container.exp_form(), bool)
+            raise Unsupported("%r in a number text of kind %s" % (item, container.cls))
         if type(container).__name__ == "SymRange" and type(container).__module__ == "pyvc.libmodels":
             t = term(item)
             if t.sort() != z3.IntSort():
